@@ -14,6 +14,10 @@ pub enum Plan {
     /// keep only the LAST copy of the FDT (after the object's close-object packet) / only the first
     FdtPlacement,
     JoinAll,
+    /// every join offset within the first `n` consecutive full cycles
+    JoinCycles(u32),
+    /// the given join offsets
+    JoinAt(Vec<usize>),
 }
 
 #[derive(Clone, Debug)]
@@ -222,7 +226,7 @@ pub fn expand(plan: &Plan, sp: &SessP, st: &[PktInfo]) -> Vec<String> {
                 out.push(render(&m, false));
             }
         }
-        Plan::JoinAll => {}
+        Plan::JoinAll | Plan::JoinCycles(_) | Plan::JoinAt(_) => {}
     }
     out
 }
@@ -706,6 +710,46 @@ pub fn gen_c02(seed: u64, thorough: bool) -> Vec<CaseSpec> {
             }
         }
     }
+    // (f) receiver resource limits (findings D32): the object is larger than object_max_cache_size and the
+    // first FDT copy is lost, so that the receiver has to hold the object without a writer: blocks of 8
+    // bytes, cache of 2 blocks, 4 / 5 / 6 blocks; in-band (block-allocation limit) and FDT-only (packet cache)
+    for sch in [Scheme::NoCode, Scheme::Rs] {
+        for ifti in [true, false] {
+            for nblk in [4u64, 5, 6] {
+                for maxc in [16u64, 24, 64] {
+                    let mut sp = base(Scheme::Rs);
+                    sp.dt = 1000;
+                    sp.idle = 1000;
+                    sp.fcar = Car::Delay(3000);
+                    sp.tail = 6;
+                    sp.maxc = maxc;
+                    let mut ob = ObjP::default();
+                    ob.sz = nblk * 8 - 1;
+                    ob.oti = Some(OtiP { sch, e: 4, b: 2, p: if sch == Scheme::NoCode { 0 } else { 1 }, ifti });
+                    sp.objs.push(ob);
+                    push(sp, &mut cases, vec![Plan::Full, Plan::FdtPlacement]);
+                }
+            }
+        }
+    }
+    // the same at the DEFAULT configuration (10 MiB): a 21 MB No-Code object (234 blocks of 64 x 1400 bytes),
+    // FDT repeated every 100 ms = 10000 packets, only the first FDT copy lost
+    if thorough {
+        for ifti in [true, false] {
+            let mut sp = base(Scheme::NoCode);
+            sp.oti = OtiP { sch: Scheme::NoCode, e: 1400, b: 64, p: 0, ifti: true };
+            sp.dt = 10;
+            sp.idle = 10;
+            sp.fcar = Car::Delay(100_000);
+            let mut ob = ObjP::default();
+            ob.sz = 20_966_400;
+            ob.ck = 'p';
+            ob.md5 = false;
+            ob.oti = Some(OtiP { sch: Scheme::NoCode, e: 1400, b: 64, p: 0, ifti });
+            sp.objs.push(ob);
+            push(sp, &mut cases, vec![Plan::FdtPlacement]);
+        }
+    }
     cases
 }
 
@@ -781,6 +825,56 @@ pub fn gen_c16(seed: u64, thorough: bool) -> Vec<CaseSpec> {
             }
         }
     }
+    }
+    // receiver resource limits (finding D33): objects larger than object_max_cache_size joined late; blocks of
+    // 8 bytes, cache of 2 / 3 blocks, block count a multiple of that (phase lock) and not; and objects that fit
+    for sch in [Scheme::NoCode, Scheme::Rs] {
+        for inband in [true, false] {
+            for (nblk, maxc) in [(4u64, 16u64), (5, 16), (6, 24), (7, 24), (4, 64), (3, 24)] {
+                let mut sp = SessP::default();
+                sp.prop = "C16".into();
+                sp.oti = OtiP { sch: Scheme::Rs, e: 256, b: 4, p: 1, ifti: true };
+                sp.dt = 1000;
+                sp.idle = 1000;
+                sp.fcar = Car::Delay(20_000);
+                sp.n = 400;
+                sp.maxc = maxc;
+                let mut ob = ObjP::default();
+                ob.oti = Some(OtiP { sch, e: 4, b: 2, p: if sch == Scheme::NoCode { 0 } else { 1 }, ifti: inband });
+                ob.sz = nblk * 8;
+                ob.car = Car::Delay(2000);
+                sp.objs.push(ob);
+                n += 1;
+                cases.push(CaseSpec { id: format!("C16-{}", n), sp, plans: vec![Plan::JoinCycles(2)] });
+            }
+        }
+    }
+    // join offsets over three consecutive cycles (the phases of the FDT carousel and of the object
+    // carousels drift against each other)
+    for sch in [Scheme::NoCode, Scheme::Rs] {
+        for inband in [true, false] {
+            for full in [true, false] {
+                let mut sp = SessP::default();
+                sp.prop = "C16".into();
+                sp.oti = OtiP { sch: Scheme::Rs, e: 256, b: 4, p: 1, ifti: true };
+                sp.full = full;
+                sp.dt = 1000;
+                sp.idle = 1000;
+                sp.mux = vec![2];
+                sp.fcar = Car::Delay(17_000);
+                sp.n = 1500;
+                for j in 0..2u64 {
+                    let mut ob = ObjP::default();
+                    ob.oti = Some(OtiP { sch, e: 4, b: 3, p: if sch == Scheme::NoCode { 0 } else { 1 }, ifti: inband });
+                    ob.sz = 30 + 7 * j;
+                    ob.seed = j;
+                    ob.car = if j == 0 { Car::Delay(3000) } else { Car::Interval(23_000) };
+                    sp.objs.push(ob);
+                }
+                n += 1;
+                cases.push(CaseSpec { id: format!("C16-{}", n), sp, plans: vec![Plan::JoinCycles(3)] });
+            }
+        }
     }
     cases
 }
